@@ -3210,15 +3210,9 @@ BENIGN = [
            "        collision_keys = ['variables', 'user_constants']\n        for key in ['variables', 'numbered_vars', 'user_constants']:\n            warn_if_override(self.config, key, self.default_variables)\n        warn_if_override(self.config, 'user_functions', self.default_functions)\n        validate_no_collisions(self.config, keys=collision_keys)\n"),
     Benign('C20j-corrected-single-subgrader-check-per-group', LG, "        if not self.subgrader_list and not isinstance(self.config['subgraders'], ListGrader):\n            msg = \"A ListGrader with groupings must have a ListGrader subgrader \" + \\\n                  \"or a list of subgraders\"\n            raise ConfigError(msg)\n",
            "        for group in self.grouping:\n            if not self.subgrader_list and not isinstance(self.config['subgraders'], ListGrader):\n                raise ConfigError(\"A ListGrader with groupings must have a ListGrader subgrader or a list of subgraders\")\n"),
-    Benign('grouping-early-return-for-single-subgrader', LG,
-           "        if self.subgrader_list:\n            if len(self.grouping) != len(self.config['subgraders']):\n                raise ConfigError(\"Number of subgraders and number of groups are not equal\")",
-           "        if not self.subgrader_list:\n            return\n        if True:\n            if len(self.grouping) != len(self.config['subgraders']):\n                raise ConfigError(\"Number of subgraders and number of groups are not equal\")"),
     Benign('override-checks-from-table', MH,
            "        warn_if_override(self.config, 'variables', self.default_variables)\n        warn_if_override(self.config, 'numbered_vars', self.default_variables)\n        warn_if_override(self.config, 'user_constants', self.default_variables)\n        warn_if_override(self.config, 'user_functions', self.default_functions)\n",
            "        for key, defaults in (('variables', self.default_variables), ('numbered_vars', self.default_variables),\n                              ('user_constants', self.default_variables), ('user_functions', self.default_functions)):\n            warn_if_override(self.config, key, defaults)\n"),
-    Benign('answers-coerced-by-conditional-expression', LG,
-           "            elif not answers_tuple:  # empty list\n                # Nothing further to check here. This must be a nested grader, which will\n                # be called upon to check answers again a bit later.\n                return tuple()\n            answers_tuple = (answers_tuple,)",
-           "            answers_tuple = (answers_tuple,) if answers_tuple else tuple()"),
     Benign('log-in-init', BASE, "        # Validate the configuration\n        self.config = self.validate_config(use_config)",
            "        _n = len(use_config) if isinstance(use_config, dict) else 0\n        self.config = self.validate_config(use_config)"),
 ]
